@@ -87,7 +87,7 @@ func genC17(rng *rand.Rand) c17Case {
 		PreCont:  rng.IntN(4) == 0,
 		OptStat:  []int{0, 200, 204}[rng.IntN(3)],
 		Methods:  []string{"default", "string", "list"}[rng.IntN(3)],
-		Headers:  []string{"none", "string", "list"}[rng.IntN(3)],
+		Headers:  []string{"none", "string", "list", "none", "string", "list", "empty-list", "empty-string", "legacy-empty-list"}[rng.IntN(9)],
 		Sessions: 1 + rng.IntN(3),
 		JSONP:    rng.IntN(5) == 0,
 	}
@@ -144,8 +144,27 @@ func (c c17Case) corsOptions() *types.Cors {
 		o.AllowedHeaders = "X-One,X-Two"
 	case "list":
 		o.AllowedHeaders = []string{"X-One", "X-Two"}
+	case "empty-list":
+		o.AllowedHeaders = []string{}
+	case "empty-string":
+		o.AllowedHeaders = ""
+	case "legacy-empty-list":
+		o.Headers = []string{}
 	}
 	return o
+}
+
+// wantAllowHeaders is the documented policy for Access-Control-Allow-Headers on a preflight: the
+// request's own list is reflected only when the option is NOT configured; a configured value is
+// sent as it is, and a configured empty value allows no request header (the field is absent).
+func (c c17Case) wantAllowHeaders(requested string) string {
+	switch c.Headers {
+	case "string", "list":
+		return "X-One,X-Two"
+	case "empty-list", "empty-string", "legacy-empty-list":
+		return ""
+	}
+	return requested
 }
 
 // reference CORS policy: is this origin allowed?
@@ -418,6 +437,10 @@ func runC17(c c17Case, r *rep.Report) (key, msg string, stats map[string]int64) 
 								key, msg = k, m
 								return
 							}
+							if got, want := res.Header.Get("Access-Control-Allow-Headers"), c.wantAllowHeaders("content-type"); got != want {
+								key, msg = "c17-cors-allow-headers", fmt.Sprintf("preflight asking for 'content-type' with allowed headers configured as %q: Access-Control-Allow-Headers %q, documented policy %q", c.Headers, got, want)
+								return
+							}
 						} else {
 							// passed on to the engine (or no CORS at all): a handshake must be GET
 							if res.Status != 400 || !strings.Contains(string(res.Body), `"code":2`) {
@@ -562,7 +585,7 @@ func corsStorm(r *rep.Report, kind string, perG int) {
 func TestC17(t *testing.T) {
 	r := rep.New(t, "C17")
 	defer r.Flush()
-	r.Rule("PRNG servers: cookie option {none, default, named+path, all attributes, a PRNG point of the attribute lattice name x path x Max-Age x Secure x HttpOnly x SameSite{default,Lax,Strict,None} x Domain judged against the configuration itself} x CORS policy {none, '*', fixed string, list, list with regexp, regexp, true, false} x credentials x preflightContinue x success status x methods/headers as string or list; 1-3 sessions each with a PRNG history of polls, posts and preflights from allowed, disallowed, look-alike and absent origins (JSONP in a fifth), six overlapping handshakes per cookie-configured server, and a real-time storm of concurrent preflights from different origins per reflecting policy; oracle: Set-Cookie exactly on the handshake response with value == session id and the configured attributes, initial_headers once per session, headers once per response, CORS headers against a reference policy model, preflight status/no session; distinct = option/history signature")
+	r.Rule("PRNG servers: cookie option {none, default, named+path, all attributes, a PRNG point of the attribute lattice name x path x Max-Age x Secure x HttpOnly x SameSite{default,Lax,Strict,None} x Domain judged against the configuration itself} x CORS policy {none, '*', fixed string, list, list with regexp, regexp, true, false} x credentials x preflightContinue x success status x methods/headers as string or list (allowed headers also as an explicitly empty list or string: nothing may be reflected then); 1-3 sessions each with a PRNG history of polls, posts and preflights from allowed, disallowed, look-alike and absent origins (JSONP in a fifth), six overlapping handshakes per cookie-configured server, and a real-time storm of concurrent preflights from different origins per reflecting policy; oracle: Set-Cookie exactly on the handshake response with value == session id and the configured attributes, initial_headers once per session, headers once per response, CORS headers against a reference policy model, preflight status/no session; distinct = option/history signature")
 	r.Assume("'responses of the session' are the responses produced by the session's transport (handshake, poll, data); protocol-error replies and preflight answers are written without the transport's header path")
 	r.Assume("for a fixed-string origin policy Vary: Origin is accepted either way (the value does not depend on the request)")
 	if r.Lane == 0 {
